@@ -86,7 +86,9 @@ static OSAttribute* mk_attr(CK_ULONG kind, CK_ULONG val)
 {
 	if (kind == KD_BOOL) { bool b = val != 0; return new OSAttribute(b); }
 	if (kind == KD_ULONG) { unsigned long u = val; return new OSAttribute(u); }
-	if (0 && kind == KD_BYTES) { unsigned char bytes[4]; bytes[0] = (unsigned char)val; bytes[1] = 1; bytes[2] = 2; bytes[3] = 3; ByteString bs(&bytes[0], (val >> 8) & 3); return new OSAttribute(bs); }
+#ifdef VP_OFW_BYTES
+	if (kind == KD_BYTES) { unsigned char bytes[4]; bytes[0] = (unsigned char)val; bytes[1] = 1; bytes[2] = 2; bytes[3] = 3; ByteString bs(&bytes[0], (val >> 8) & 3); return new OSAttribute(bs); }
+#endif
 	return (OSAttribute*)0;
 }
 static long vp_gen_store[8];
